@@ -420,3 +420,133 @@ def _test(obligations, trials=400, seed=11):
                 return ("fail", kind, rc, w)
         n_ok += 1
     return ("ok", n_ok)
+
+
+def check_vectorize(project: Project, rep):
+    """GL-VEC — `vectorize` (exact -> grid): the values handed to the approximate class are, for every depth d and node g,
+    np.interp(start + g·(stop − start)/(num_steps − 1), abscissae of depth d's critical pairs, their ordinates) — linear
+    interpolation of *that* depth's own breakpoints at the grid nodes, which reproduces the piecewise-linear function at
+    every node — with start / stop / num_steps / hom_deg forwarded unchanged, and the defaults of start / stop taken from
+    the smallest / largest abscissa of the first depth. Decided on the constructor call observed during a symbolic run."""
+    from ..core.values import Seq, rows
+    EX = "persim.landscapes.exact.PersLandscapeExact"
+    q = "persim.landscapes.tools.vectorize"
+    fi = project.functions.get(q)
+    if fi is None:
+        rep.unmodelled("GL-VEC", None, None, f"{q} not found")
+        return
+    rep.analysed(fi)
+
+    def run(given: bool):
+        def stub(I, bound, n):
+            return ObjV(AP, dict(bound))
+        I = Interp(project, Config(nonempty={("rows", "D"), ("rows", "K")}, finite_inputs={"cp"},
+                                   flags={"stub_ctor": {AP: stub}}))
+        d, k, c = fresh(), fresh(), fresh()
+        cp = Arr([(rows("D"), d), (rows("K"), k), (fix(2), c)], sym.In("cp", ((d, 0), (k, 0), (c, 0))), "list")
+        l = ObjV(EX, {"critical_pairs": cp, "hom_deg": Sc(sym.Sym("hd")), "dgms": Seq([], "list")})
+        kw = {"num_steps": Sc(sym.Sym("n"))}
+        if given:
+            kw.update(start=Sc(sym.Sym("start")), stop=Sc(sym.Sym("stop")))
+        I.call_function(fi, [l], kw, None)
+        return I
+
+    try:
+        I = run(True)
+    except Exception as ex:
+        rep.unmodelled("GL-VEC", fi, fi.node, f"symbolic execution failed: {type(ex).__name__}: {ex}"[:200])
+        return
+    cons = [ev for ev in I.log if ev["kind"] == "construct" and ev["cls"] == AP]
+    if len(cons) != 1:
+        rep.unmodelled("GL-VEC", fi, fi.node, f"expected one approximate landscape to be built, found {len(cons)}")
+        return
+    args = cons[0]["args"]
+    node = cons[0]["node"]
+    for name, want in (("start", sym.Sym("start")), ("stop", sym.Sym("stop")), ("num_steps", sym.Sym("n")), ("hom_deg", sym.Sym("hd"))):
+        v = args.get(name)
+        if isinstance(v, Sc) and v.e == want:
+            rep.discharged("GL-VEC", fi, node, f"`{name}` reaches the approximate landscape unchanged")
+        elif isinstance(v, Sc) and v.e is not None and not [x for x in sym.walk(v.e) if x[0] == "opq" and x[1].startswith("unmodelled")]:
+            rep.refuted("GL-VEC", fi, node, f"the approximate landscape is built with {name} = {sym.show(v.e)[:80]} instead of the "
+                                            f"requested {sym.show(want)}: its values are then read on another grid / degree")
+        elif v is None:
+            rep.refuted("GL-VEC", fi, node, f"`{name}` is not passed on: the approximate landscape falls back to its own default")
+        else:
+            rep.unmodelled("GL-VEC", fi, node, f"`{name}` passed to the constructor is not modelled")
+    vals = args.get("values")
+    if not isinstance(vals, Arr) or vals.ndim != 2:
+        rep.unmodelled("GL-VEC", fi, node, f"values passed to the constructor are not a 2-d array: {vals!r}"[:200])
+        return
+    (dsp, div), (gsp, giv) = vals.axes
+    e = vals.elem
+    if any(x[0] == "opq" and x[1].startswith("unmodelled") for x in sym.walk(e)):
+        rep.unmodelled("GL-VEC", fi, node, "values not fully modelled")
+        return
+    if dsp.key != ("rows", "D") or not sym.equal(gsp.size, sym.Sym("n")):
+        rep.refuted("GL-VEC", fi, node, f"values have shape ({sym.show(dsp.size)[:40]}, {sym.show(gsp.size)[:40]}) instead of "
+                                        f"(number of depths, num_steps)")
+        return
+    if not (e[0] == "opq" and e[1] == "interp" and len(e[2]) == 3):
+        rep.unmodelled("GL-VEC", fi, node, f"a value is {sym.show(e)[:100]}, not a linear interpolation of the breakpoints")
+        return
+    x, xp, fp = e[2]
+    grid = sym.add(sym.Sym("start"), sym.mul(sym.IV(giv), sym.div(sym.sub(sym.Sym("stop"), sym.Sym("start")),
+                                                                    sym.sub(sym.Sym("n"), sym.ONE))))
+    ok, w = symeval.equivalent(x, grid, trials=30)
+    if ok is True:
+        rep.discharged("GL-VEC", fi, node, "sampled at start + g·(stop − start)/(num_steps − 1), g = 0 … num_steps − 1")
+    elif ok is False:
+        rep.refuted("GL-VEC", fi, node, f"sampled at {sym.show(x)[:100]} instead of the nodes of linspace(start, stop, num_steps); "
+                                        f"witness {w}")
+    else:
+        rep.unmodelled("GL-VEC", fi, node, f"cannot evaluate the sampling abscissa ({w})")
+
+    def col(expr):
+        if expr[0] == "in" and expr[1] == "cp" and len(expr[2]) == 3:
+            dd, kk, cc = expr[2]
+            return (dd[0] if isinstance(dd, tuple) else dd), (kk[0] if isinstance(kk, tuple) else kk), cc
+        return None
+    cx, cy = col(xp), col(fp)
+    if cx is None or cy is None:
+        rep.unmodelled("GL-VEC", fi, node, f"breakpoints are {sym.show(xp)[:60]} / {sym.show(fp)[:60]}, not coordinates of the "
+                                           f"critical pairs")
+        return
+    if cx[0] != div or cy[0] != div:
+        rep.refuted("GL-VEC", fi, node, "row d of the values is interpolated from another depth's critical pairs")
+    elif (cx[2], cy[2]) == (0, 1) and isinstance(cx[1], str) and isinstance(cy[1], str):
+        rep.discharged("GL-VEC", fi, node, "row d interpolates depth d's own critical pairs (abscissae → ordinates)")
+    elif (cx[2], cy[2]) == (1, 0):
+        rep.refuted("GL-VEC", fi, node, "abscissae and ordinates of the critical pairs are exchanged in np.interp")
+    else:
+        rep.refuted("GL-VEC", fi, node, f"np.interp is given columns {cx[2]} and {cy[2]} of the critical pairs, or a single pair")
+    # defaults
+    try:
+        I2 = run(False)
+    except Exception as ex:
+        rep.unmodelled("GL-VEC", fi, fi.node, f"symbolic execution without start/stop failed: {type(ex).__name__}"[:200])
+        return
+    cons2 = [ev for ev in I2.log if ev["kind"] == "construct" and ev["cls"] == AP]
+    if len(cons2) != 1:
+        rep.unmodelled("GL-VEC", fi, fi.node, "constructor call not found when start/stop are defaulted")
+        return
+    kk = "$k"
+    for name, op in (("start", "min"), ("stop", "max")):
+        v = cons2[0]["args"].get(name)
+        want = sym.Red(op, kk, ("rows", "K"), sym.In("cp", (0, (kk, 0), 0)))
+        if not isinstance(v, Sc) or v.e is None:
+            rep.unmodelled("GL-VEC", fi, cons2[0]["node"], f"default of `{name}` not modelled")
+            continue
+        got = v.e
+        if got[0] == "red":
+            got = sym.Red(got[1], kk, got[3], sym.subst_ivar(got[4], got[2], (kk, 0)))
+        if got == want:
+            rep.discharged("GL-VEC", fi, cons2[0]["node"], f"default `{name}` is the {op}imum abscissa of the first depth's "
+                                                           f"critical pairs")
+        elif got[0] == "opq" and got[1] == "unmodelled:arg-extreme-row":
+            rep.refuted("GL-VEC", fi, cons2[0]["node"], f"default `{name}` is the abscissa of the critical pair whose *other* "
+                                                        f"coordinate is extreme, not the {op}imum abscissa of the first depth")
+        elif any(x[0] == "opq" and x[1].startswith("unmodelled") for x in sym.walk(got)):
+            rep.unmodelled("GL-VEC", fi, cons2[0]["node"], f"default of `{name}` not fully modelled")
+        else:
+            rep.refuted("GL-VEC", fi, cons2[0]["node"], f"default `{name}` is {sym.show(got)[:100]}, not the {op}imum abscissa of "
+                                                        f"the first depth (the support of the landscape)")
